@@ -121,7 +121,8 @@ PROPS["C05"] = {
             "by >=3 Pops. Legs sort/sortx: heapq.Sort on random slices and on every sequence over {0,1,2} up to length "
             "8 (quick) / 11 (thorough), both directions: output sorted and a permutation by identity; non-trivial = "
             "length>=4 with duplicates. Distinct = hash of the case JSON (rapid legs) / distinct by construction (sortx). "
-            "Value vectors for Set / NewWithData / Sort are independent values (half of the cases) or ordered along the parent links (i-1)/2 (already a heap), along the wrong links i/2, sorted, or constant, each in either direction.",
+            "Value vectors for Set / NewWithData / Sort are independent values (half of the cases) or ordered along the parent links (i-1)/2 (already a heap), along the wrong links i/2, sorted, or constant, each in either direction. "
+            "ELEMENT KINDS (the library is generic, so the property must hold for every instantiation; a change that special-cases a type through a type switch, reflect, unsafe.Sizeof, DeepEqual or fmt is only visible this way): half of the cases run the queue / Sort on the harness's own (value,id) struct; the rest instantiate Queue[T] and Sort[T] with int (no identity: conservation as a multiset of values), string, an 88-byte comparable struct, fresh *Cell pointers (every Add/Set supplies a NEW pointer, also for a value already held; op setSame re-Sets the current values slot by slot), []byte, and any holding *Cell. The reference model stays in ints, 'held' means the very element handed in (Kit.Same), class elem=<kind>. The exhaustive Sort leg runs every sequence on the own struct plus one further kind cycling with the case index.",
     "assumptions": COMMON_ASSUME + ["a defect whose symptoms coincide with a deviation model of F1/F2 on every generated history would be filed under the known finding"],
 }
 
@@ -134,7 +135,8 @@ PROPS["C06"] = {
             "Peek(lastReported) is that element; Add returns the reported position of the new element; Set reports every "
             "new element. Elements loaded by NewWithData are exempt until first reported. NON-TRIVIAL iff an element "
             "that had moved >=2 times was removed through its recorded position. Order failures met on the way are "
-            "routed through the C05 triage. Distinct = hash of the case JSON.",
+            "routed through the C05 triage. Distinct = hash of the case JSON. "
+            "Element kinds as C05. For kind int, which has no identities, the clause is checked by position: the last report naming each live position must name the value found there, Add's return and Set's reports likewise, and removeElem goes through a reported position; such cases are never counted non-trivial.",
     "assumptions": COMMON_ASSUME,
 }
 
@@ -157,9 +159,10 @@ PROPS["C07"] = {
             "leg exh: every sequence over {Add, Push, Pop, PopLast} of length 0..L (L = 9 quick, 11 thorough), in size order, "
             "for each NewSize(n), n in 0..4, same comparison after every step; distinct by construction; non-trivial by the "
             "same shadow rule. "
-            "One peek in twenty uses an offset at the ends of the int range (math.MinInt, MinInt+1, MaxInt, MaxInt-Len, +-2^31, +-2^32).",
+            "One peek in twenty uses an offset at the ends of the int range (math.MinInt, MinInt+1, MaxInt, MaxInt-Len, +-2^31, +-2^32). "
+            "ELEMENT KINDS (the library is generic, so the property must hold for every instantiation; a change that special-cases a type through a type switch, reflect, unsafe.Sizeof, DeepEqual or fmt is only visible this way): half of the hist cases run Queue[int]; the others instantiate the queue with string, int16, uint8, an 88-byte struct, *Cell (new pointer per element, about half of the pointees deeply equal), []byte (fresh backing array, four contents) or any holding *Cell. Serial numbers are converted at the API boundary, and every comparison demands the very element that was supplied (==, same pointer, same backing array, content intact) and the zero value of the type on empty. The 'fill exactly' prefix and the labelling shadow use the capacities append really produces for that element type. Leg exh stays exhaustive for Queue[int] up to L and re-runs every case up to L-1 with one of the seven other kinds, cycling by case index.",
     "assumptions": COMMON_ASSUME + [
-        "element type is int; capacity growth of the shadow follows the runtime's append for the same element type (labels only)",
+        "capacity growth of the shadow follows the runtime's append for the same element type (labels only)",
         "statement coverage of queue.go / slice.Rotate is not recorded by the driver; the shadow classes "
         "full_head>0_then_Add / full_head>0_then_Push stand in for it"],
 }
@@ -197,7 +200,8 @@ PROPS["C10"] = {
             "Each and Len equal the model's rotation, At(n)/Peek(n) for n in [-Len-1, Len+1] (nil or the element itself "
             "accepted at |n| == Len), so the multiset of elements is conserved. Non-trivial: a same-ring Join at distance >= 2 "
             "and a different-ring Join in one history. Distinct = distinct canonical JSON of the case (64-bit hash), unioned "
-            "over shards.",
+            "over shards. "
+            "ELEMENT KINDS (the library is generic, so the property must hold for every instantiation; a change that special-cases a type through a type switch, reflect, unsafe.Sizeof, DeepEqual or fmt is only visible this way): every leg draws an element kind for its container: half of the cases use int; the rest instantiate Stack/Queue/List/Ring with string, int16, an 88-byte comparable struct, *Cell pointers, []byte or any (holding fresh pointers). The model stays in ints and every comparison additionally requires, for the kinds with an identity, that the element returned/listed is the very element that was handed in (pointer / backing array / value+ID), with the zero value of T where the int model has 0. In the list leg half of the Sets through a cursor at a real element (spliced in by construction) supply a NEW element whose value (for pointer-like kinds: whose pointee/contents) equals the one it replaces, and the list must then hold the element that was set; ring.Of must store the given elements themselves and ring.New zero values. Peek/At offsets include the ends of the int range.",
     "assumptions": COMMON_ASSUME + [
         "a hang is recognised by the kit's watchdog (case still running after 30 s wall and 20 s CPU; the operations are O(n <= 64))",
         "mlink cursors are value-copyable (the position check walks a copy of the cursor)",
@@ -219,7 +223,8 @@ PROPS["C08"] = {
             "a mismatch is attributed to F2 only if a re-implementation of cache.go+lru.go over the F2 deviation heap "
             "(verif/devheap) has reproduced every result of the whole history, and from then on the cache must keep "
             "following that model. NON-TRIVIAL iff some eviction's victim had been re-ordered by an earlier Get or had a "
-            "recency neighbour removed by Remove. Distinct = hash of the case JSON.",
+            "recency neighbour removed by Remove. Distinct = hash of the case JSON. "
+            "ELEMENT KINDS (the library is generic, so the property must hold for every instantiation; a change that special-cases a type through a type switch, reflect, unsafe.Sizeof, DeepEqual or fmt is only visible this way): half of the cases keep Cache[int, Val] with OnEvict then WithSize. The rest draw keys from int / string / 88-byte struct / int16 (key 0 is the key type's zero value) and values from Val / *Cell / any holding *Cell / 88-byte struct / string or []byte sized by cache.Length (limit and sizes x8, the empty value has size 0 and no identity; with no size function the lengths are 8 to 68). For *Cell values of equal size the pointees are deeply equal but the pointers distinct. They also draw the options in either order, given twice (the last wins, the earlier functions must never be called), set on a discarded copy, or absent, and may bracket every step with Has(key). Every element handed back by Get or the callback must be the very element that was Put. putSame re-puts the identical element and putEq a new element of equal size (a new pointer to an equal pointee); both must produce the replaced-entry callback.",
     "assumptions": COMMON_ASSUME + ["a defect whose symptoms coincide with the F2 deviation model on every generated history would be filed under F2"],
 }
 
@@ -249,7 +254,8 @@ PROPS["C09"] = {
             "runs against 1-3 reader goroutines; every Len/Size/Has observation must be the state before the Clear or the "
             "state after it, a reader that saw 'after' (or started after Clear returned) must never see 'before', and the "
             "callback must report each entry exactly once; evaluations = executions, non-trivial = executions in which a "
-            "reader saw both states (counted, not deduplicated: executions are not reproducible).",
+            "reader saw both states (counted, not deduplicated: executions are not reproducible). "
+            "Half of the workloads use keys in int / string / 88-byte struct and values in Val / *Cell / string, up to 5 keys. One third of the workloads run on a USER-SUPPLIED Store passed through WithStore (the Store documentation promises that the Cache serialises access to it): a lock-free recency list whose every method, Check included, writes plain counters; in raw executions only the cache's lock orders the calls, so the race detector reports any gap, stamped executions also count the calls inside the store. One fifth are single-goroutine workloads (limit 4-5, unit sizes: fill, Remove, Get, fresh Puts) that are stepped directly against the reference LRU, naming the first wrong call; they never count as non-trivial. Elements are made before and converted after the concurrent phase, so the harness adds no synchronisation. Put sizes include 0 (cache.Length of an empty value).",
     "assumptions": COMMON_ASSUME + [
         "the Go scheduler is not owned by the harness: interleavings are sampled, not enumerated; a defect that needs one specific preemption inside a few instructions can be missed",
         "the Go race detector reports only races that occur in an execution",
@@ -310,9 +316,10 @@ PROPS["C18"] = {
             "counts, per case, receiver_larger / receiver_smaller / nil operand / add on nil receiver / self operand / "
             "pop on empty and non-empty / constructor alias probes and every op kind.  Distinct = distinct canonical "
             "JSON of the case (64-bit hash), unioned over shards. "
-            "Range is called with a restartable sequence or with a single-use one (a second pass yields nothing).",
+            "Range is called with a restartable sequence or with a single-use one (a second pass yields nothing). "
+            "ELEMENT KINDS (the library is generic, so the property must hold for every instantiation; a change that special-cases a type through a type switch, reflect, unsafe.Sizeof, DeepEqual or fmt is only visible this way): every case names an element kind: half keep Set[int] with the ints as members, the rest (and the whole exhaustive enumeration, once per kind) instantiate Set[T] with int/int16 at the ends of their ranges, strings (20-byte texts, the same with a suffix, short texts), 88-byte structs differing in one word, *Cell pointers (members are identities; neighbouring model values are distinct pointers to deeply equal cells), Set[any] with members of MIXED dynamic types (nil, int, string, *Cell, float64 that print alike) and float64 (integers, halves, -Inf, huge, denormals); model value 0 is the zero value of T in every kind, the reference stays in ints and all checks apply to every kind. For Set[float64] the op nanclear puts 1..3 NaN members into a variable through the built-in map operation and demands only that Clear leaves Len()==0; nothing else is asserted about NaN (a Go map can neither find nor delete a NaN key).",
     "assumptions": COMMON_ASSUME + [
-        "element type int only; the generic code has no type-dependent branch",
+        "element kinds as listed in the rule; other instantiations are assumed to behave like one of them",
         "writing to the underlying map directly (documented as allowed) is used for the aliasing probe",
     ],
 }
@@ -321,7 +328,8 @@ PROPS["C19"] = {
     "legs": [rapid("det", "pdistinct", "TestC19Det", 4, 20000, 16, 1200000),
              plain("stat", "pdistinct", "TestC19Stat", solo=True, shards={"quick": 1, "thorough": 4}),
              plain("reuse", "pdistinct", "TestC19Reuse"),
-             plain("huge", "pdistinct", "TestC19Huge")],
+             plain("huge", "pdistinct", "TestC19Huge"),
+             rapid("nan", "pdistinct", "TestC19NaN", 1, 300, 4, 20000)],
     "rule": "leg reuse: one counter is run 24 times on the same stream (D distinct values, D > 20*size and not of the form Len*2^k) with Reset between the runs; if all 24 runs return the same Count the mean over repeated runs is stuck away from D (runs through Reset are not independent) - for independent runs and sizes >= 16 the probability of that is below 1e-15; non-trivial = the runs gave at least two different counts. The counter seeds itself from crypto/rand, so no run is bit-reproducible; the deterministic clauses hold "
             "with probability 1 and are checked on every run, the unbiasedness clause is statistical.  leg det: a case "
             "is (size, reps, ops) with ops[i] >= 0 = Add(value) and -1 = Reset; size from {2,3,4,8,16,64} (75%) or "
@@ -356,11 +364,12 @@ PROPS["C19"] = {
             "replay of a det case re-runs its reps counters.  Distinct = distinct canonical JSON of the case (det, "
             "64-bit hash, unioned over shards); the 12 stat streams of a shard are distinct by construction (size x "
             "near/far).  evaluations counts streams; the class `counter_runs` counts the individual counters. "
-            "leg huge: buffers of 2^17+1 .. 2^20 elements: fill with size-1, about 3/4 size, or 1-2 x size distinct values (exact Len/Count checked every 4096 values while below capacity; Count = Len x 2^k at the end), Reset (Len = Count = 0), then a small exact stream; non-trivial iff more than 2^18 values were buffered at the Reset.",
+            "leg huge: buffers of 2^17+1 .. 2^20 elements: fill with size-1, about 3/4 size, or 1-2 x size distinct values (exact Len/Count checked every 4096 values while below capacity; Count = Len x 2^k at the end), Reset (Len = Count = 0), then a small exact stream; non-trivial iff more than 2^18 values were buffered at the Reset. "
+            "ELEMENT KINDS (the library is generic, so the property must hold for every instantiation; a change that special-cases a type through a type switch, reflect, unsafe.Sizeof, DeepEqual or fmt is only visible this way): about half of the det/reuse/stat cases and the original huge cases use Counter[int] on the stream values; the others instantiate Counter with int (range ends, pairs equal mod 2^32 or equal as float64), string, int16, an 88-byte struct, [64]byte, [512]byte, *Cell (nil; distinct pointers with deeply equal pointees are distinct values), any (nil, *Cell, int/int32/string of the same text) or float64 (+0/-0 are one value; a NaN is buffered only before a Reset, after which Len = Count = 0), every stream value mapped one-to-one to an element and value 0 to the zero value. About 10% of det cases and several huge cases use buffer sizes no stream can fill (2^16 .. 2^32+100, 3<<32, 2^52, 2^62, MaxInt): the counter must stay exact throughout. The huge leg also keeps counters of 88-, 64-, 512- and 16-byte elements exact with more than 4, 16 and 64 MiB of elements buffered, and all 65536 int16 values; non-trivial (huge) iff more than 2^18 values or more than 4 MiB of elements were buffered. leg nan: Counter[float64] of size 2..100 fed up to 4 x size values, NaNs among them: asserted is only that every Add returns (kit watchdog) and that Reset leaves Len = Count = 0 (regression of F8b).",
     "assumptions": COMMON_ASSUME + [
         "crypto/rand and math/rand/v2 ChaCha8 deliver independent uniform bits (the statistical clause is a statement about the algorithm, not about the entropy source)",
         "the false-alarm bound of the statistical leg for buffer sizes below 8 rests on simulation of the Student statistic out to the 1e-5 level and a normal-tail extrapolation with a safety factor of about 2 in standard deviations; it is not a proved bound",
-        "element type int only; more than 63 halvings (Count overflows uint64) are unreachable for these stream lengths",
+        "more than 63 halvings (Count overflows uint64) are unreachable for these stream lengths",
     ],
 }
 
